@@ -390,6 +390,7 @@ def generate(rng, seed, size):
             if not robust:
                 lines = noise.fold_disabled(rng, lines)
                 lines = noise.trailing_commas(rng, noise.place(rng, lines, noise.variant_noise(rng, 0.25, False)))
+                lines = noise.respell("c17-%s-%s" % (ename, v["ident"]), lines)
             for a in lines:
                 out.append("    %s\n" % a)
             dsuf = "" if discr is None else " = %d" % discr[variants.index(v)]
